@@ -8,12 +8,13 @@ grep -E "Summary" "$LOG"
 python3 - "$LOG" <<'PY'
 import json,sys,re
 sp=set(json.load(open('/root/.vp/BASELINE.json'))['stable_pass'])
-bad=set()
+bad=set(); ids={}
 for l in open(sys.argv[1], errors='replace'):
     m=re.match(r"\s+(FAIL|SIGABRT|SIGSEGV|TIMEOUT|LEAK-FAIL|SIG\w+)\s+\[.*?\]\s+(?:\(.*?\)\s+)?(\S+)\s+(\S+)", l)
     if m:
         name=m.group(2)+'::'+m.group(3)
-        if name in sp: bad.add(name)
+        if name in sp: bad.add(name); ids[name]=(m.group(2),m.group(3))
 print("STABLE-PASS TESTS FAILING:", len(bad))
 for b in sorted(bad): print("  ", b)
+for b in sorted(bad): print("RERUN\t%s\t%s" % ids[b])
 PY
